@@ -560,7 +560,7 @@ func run(c Case) (res vkit.Result) {
 				return failf("step %d: publish: %v", step, err)
 			}
 			// forwarding is asynchronous (the peer's 5 ms flush ticker): wait for the expected frames, then a little longer
-			deadline := time.Now().Add(10 * time.Second)
+			deadline := time.Now().Add(vkit.WaitCeiling)
 			for time.Now().Before(deadline) {
 				all := true
 				for d := range wantDst {
